@@ -1,9 +1,251 @@
 import Olla.Driver.Util
+import Olla.Driver.C06
+import Olla.Model.Balancer
+import Olla.Model.Repository
+import Olla.Spec.C03
 
 namespace Olla.Driver.C03
-open Lean Olla.Driver
+open Lean Olla.Driver Olla.Model.Balancer Olla.Model.Retry Olla.Model.Repository Olla.Spec.C03
 
-/-- placeholder until the C03 driver is written -/
-def main : IO Unit := pure ()
+def parseEp (j : Json) : Ep :=
+  { id := jnat (jget j "id"), prio := jint (jget j "prio"), status := jstr (jget j "status"), conns := 0 }
+def parseEps (j : Json) : List Ep := (jarr j).map parseEp
+
+def idsOf (l : List Ep) : List Int := l.map (fun e => (e.id : Int))
+def optId (o : Option Ep) : Int := match o with | some e => (e.id : Int) | none => -1
+
+/-- Priority picks over several draws: every pick lies in the model's top tier, or the single answer is "error" iff the tier is empty. -/
+def prioExplained (l : List Ep) (picked : List Int) : Bool :=
+  let tier := idsOf (topTier l)
+  if tier.isEmpty then picked == [-1] else !picked.isEmpty && picked.all (fun p => tier.contains p)
+
+def statusIn (l : List Ep) (id : Int) : Option String := (l.find? (fun e => (e.id : Int) == id)).map (·.status)
+
+-- ---------------------------------------------------------------- table
+
+def handleTable (case : Nat) (j : Json) : IO Unit := do
+  let eps := parseEps (jget j "eps")
+  let impl := jget j "impl"
+  let iHealthy := parseEps (jget impl "healthy")
+  let iRoutable := jintList (jget impl "routable")
+  let iAll := parseEps (jget impl "all")
+  let onH := jget impl "on_healthy"
+  let onA := jget impl "on_all"
+  let mH := getHealthy eps
+  let sel := fun (l : List Ep) (o : Json) =>
+    jint (jget o "round-robin") == optId (rrSelect 0 l) && jint (jget o "least-connections") == optId (lcSelect l) &&
+      prioExplained l (jintList (jget o "priority"))
+  let agree := iHealthy == mH && iRoutable == idsOf (getRoutable eps) && iAll == eps && sel mH onH && sel eps onA
+  -- the property on what the implementation returned; the truth about a status is what was written (`eps`)
+  let truth := fun (e : Nat) => statusOf eps e
+  -- (the property asks for routable; that GetHealthy is narrower — healthy only — is the model's business, see `agree`)
+  let pHealthy := onlyRoutableReceived truth (iHealthy.map (·.id))
+  let picks := fun (o : Json) => (jintList (jget o "priority")) ++ [jint (jget o "round-robin"), jint (jget o "least-connections")]
+  let member := fun (given : List Ep) (p : Int) => p == -1 || (p ≥ 0 && memberOrError (given.map (·.id)) (some p.toNat))
+  let pMember := (picks onH).all (member iHealthy) && (picks onA).all (member iAll)
+  let pRoutable := ((picks onH) ++ (picks onA)).all (fun p => p < 0 || dispatchOk (truth p.toNat) true)
+  let spec := pHealthy && pMember && pRoutable
+  let sig := if !pHealthy then "candidate-snapshot-contains-endpoint-that-is-not-routable" else if !pMember then "balancer-returned-non-member"
+    else if !pRoutable then "balancer-picked-endpoint-that-is-not-routable" else ""
+  let branch := s!"table.n{eps.length}." ++ (if mH.isEmpty then "none-healthy" else if mH.length == eps.length then "all-healthy" else "mixed")
+  emit case agree spec branch sig
+    (if agree && spec then "" else s!"statuses {eps.map (·.status)} priorities {eps.map (·.prio)}: GetHealthy {idsOf iHealthy} GetRoutable {iRoutable}, picks on healthy {picks onH}, on all {picks onA}; model healthy {idsOf mH} routable {idsOf (getRoutable eps)}")
+    (toJson (idsOf mH))
+
+-- ---------------------------------------------------------------- history
+
+structure HState where
+  repo  : Repo
+  snaps : List (Nat × List Ep × Bool × Repo)   -- slot ↦ (records, pristine healthy snapshot?, the truth when it was taken)
+  rr    : Nat := 0
+  agree : Bool := true
+  spec  : Bool := true
+  sig   : String := ""
+  note  : String := ""
+
+def setAt (l : List Ep) (i : Nat) (s : String) : List Ep :=
+  (l.zipIdx).map (fun (e, k) => if k == i then { e with status := s } else e)
+
+def fail (st : HState) (sig note : String) : HState :=
+  if st.spec then { st with spec := false, sig := sig, note := note } else st
+
+def hstep (st : HState) (op : Json) (obs : Json) (idx : Nat) : HState :=
+  let kind := jstr (jget op "op")
+  let k := jnat (jget op "k")
+  let iRepo := parseEps (jget obs "repo")
+  let iSnap := parseEps (jget obs "snap")
+  let slot := st.snaps.find? (·.1 == k)
+  -- model
+  let st := match kind with
+    | "update" => { st with repo := setStatus st.repo (jnat (jget op "e")) (jstr (jget op "s")) }
+    | "snap" =>
+      let src := jstr (jget op "src")
+      let recs := if src == "all" then st.repo else if src == "routable" then getRoutable st.repo else getHealthy st.repo
+      { st with snaps := (k, recs, src == "healthy" || src == "", st.repo) :: st.snaps.filter (·.1 != k) }
+    | "mutate" =>
+      (match slot with
+       | some (_, recs, _, truth) => { st with snaps := (k, setAt recs (jnat (jget op "i")) (jstr (jget op "s")), false, truth) :: st.snaps.filter (·.1 != k) }
+       | none => st)
+    | _ => st
+  let recsNow := (st.snaps.find? (·.1 == k)).map (·.2.1) |>.getD []
+  -- correspondence
+  let okRepo := iRepo == st.repo
+  let okSnap := kind == "update" || (kind == "mutate" && slot.isNone) || iSnap == recsNow
+  let sel := jintList (jget obs "sel")
+  let bal := jstr (jget op "bal")
+  let (okSel, rr') := if kind != "select" then (true, st.rr) else
+    if bal == "round-robin" then
+      let (c', r) := rrStep st.rr recsNow
+      (sel == [optId r], c')
+    else if bal == "least-connections" then (sel == [optId (lcSelect recsNow)], st.rr)
+    else (prioExplained recsNow sel, st.rr)
+  let okAll := okRepo && okSnap && okSel
+  let newNote := if st.agree && !okAll then s!"step {idx} ({kind}): repository {iRepo.map (·.status)} snapshot {iSnap.map (fun e => (e.id, e.status))} picked {sel}; model repository {st.repo.map (·.status)} snapshot {recsNow.map (fun e => (e.id, e.status))}" else st.note
+  let newAgree := st.agree && okAll
+  let st := { st with rr := rr', agree := newAgree, note := newNote }
+  -- the property on the implementation's answers. The truth about statuses is the log of updates (= st.repo).
+  let st := if iRepo.map (·.status) != st.repo.map (·.status) then
+      fail st "repository-status-changed-without-update" s!"step {idx} ({kind}): the repository reads {iRepo.map (·.status)} but the statuses written so far are {st.repo.map (·.status)}"
+    else st
+  let st := if kind == "snap" && (jstr (jget op "src") == "healthy") && !(onlyRoutableReceived (statusOf st.repo) (iSnap.map (·.id))) then
+      fail st "candidate-snapshot-contains-endpoint-that-is-not-routable" s!"step {idx}: GetHealthy returned {iSnap.map (·.id)} while the written statuses are {st.repo.map (·.status)}"
+    else st
+  if kind == "select" then
+    match st.snaps.find? (·.1 == k) with
+    | some (_, _, pristine, truth) =>
+      -- membership is judged against the list the implementation's selector was really given (`iSnap`)
+      let st := if !sel.all (fun p => p == -1 || (p ≥ 0 && memberOrError (iSnap.map (·.id)) (some p.toNat))) then
+          fail st "balancer-returned-non-member" s!"step {idx}: {bal} picked {sel} from {iSnap.map (·.id)}" else st
+      if pristine && !sel.all (fun p => p < 0 || dispatchOk (statusOf truth p.toNat) (iSnap.any (fun e => (e.id : Int) == p))) then
+        fail st "dispatch-to-endpoint-not-routable-at-snapshot" s!"step {idx}: {bal} picked {sel} from a GetHealthy snapshot taken when the written statuses were {truth.map (·.status)}"
+      else st
+    | none => st
+  else st
+
+def handleHistory (case : Nat) (j : Json) : IO Unit := do
+  let eps := (parseEps (jget j "eps")).map (fun e => { e with status := "unknown" })   -- LoadFromConfig: StatusUnknown
+  let ops := jarr (jget j "ops")
+  let steps := jarr (jget (jget j "impl") "steps")
+  let st0 : HState := { repo := eps, snaps := [] }
+  let st := ((ops.zip steps).zipIdx).foldl (fun st ((op, obs), i) => hstep st op obs i) st0
+  let agree := st.agree && ops.length == steps.length
+  let hasMut := ops.any (fun o => jstr (jget o "op") == "mutate")
+  emit case agree st.spec (s!"history.n{eps.length}" ++ (if hasMut then ".scribble" else "")) st.sig st.note Json.null
+
+-- ---------------------------------------------------------------- stack
+
+def nameIdx (names : List String) (n : String) : Nat := (names.findIdx? (· == n)).getD 99
+
+partial def drive (v : Variant) (σ : State) (rid : Nat) (pickFor : State → List Ep → Option Ep) (beh : Nat → Attempt) (fuel : Nat) : State :=
+  if fuel == 0 then σ else
+  match σ.inflight.find? (fun r => r.rid == rid) with
+  | none => σ
+  | some r =>
+    let vw := view v σ.repo r
+    let t := if r.fuel == 0 || r.avail.isEmpty then none else pickFor σ vw
+    let a := match t with | some e => beh e.id | none => .ok ⟨200, [], []⟩
+    drive v (step v σ (.attempt rid (pickFor σ) a)) rid pickFor beh (fuel - 1)
+
+def statusList (names : List String) (m : Json) : List String := names.map (fun n => jstr (jget m n))
+
+def handleStack (case : Nat) (j : Json) : IO Unit := do
+  let sc := jget j "scenario"
+  let impl := jget j "impl"
+  if jstr (jget impl "start_err") != "" then
+    emit case false true "start-error" "" (jstr (jget impl "start_err")); return
+  let names := jstrList (jget sc "names")
+  let prios := jintList (jget sc "prios")
+  let bal := jstr (jget sc "balancer")
+  let ops := jarr (jget sc "ops")
+  let steps := jarr (jget impl "steps")
+  let repo0 : Repo := (names.zipIdx).map (fun (_, i) => { id := i, prio := prios.getD i 100, status := "healthy", conns := 0 })
+  let mut σ : State := init repo0
+  let mut broken : List (Nat × String) := []
+  let mut agree := ops.length == steps.length
+  let mut spec := true
+  let mut sig := ""
+  let mut note := ""
+  let mut rid := 0
+  let mut failovers := 0
+  for ((op, obs), i) in (ops.zip steps).zipIdx do
+    let kind := jstr (jget op "op")
+    let e := nameIdx names (jstr (jget op "e"))
+    if kind == "set" then σ := step active σ (.healthResult e (jstr (jget op "s")))
+    else if kind == "break" then broken := (e, jstr (jget op "kind")) :: broken.filter (·.1 != e)
+    else if kind == "mend" then broken := broken.filter (·.1 != e)
+    else if kind == "req" then
+      rid := rid + 1
+      let contacted := (jstrList (jget obs "contacted")).map (nameIdx names)
+      let before := jget obs "before"
+      -- the property, on the implementation's own repository reading taken when the request was sent
+      let atArrival := fun (x : Nat) => (names[x]?).map (fun n => jstr (jget before n))
+      if spec && !onlyRoutableReceived atArrival contacted then
+        spec := false
+        sig := "traffic-to-endpoint-not-routable-at-arrival"
+        note := s!"step {i}: the request reached {contacted.map (fun x => names.getD x "?")} while the repository said {statusList names before}"
+      -- the model
+      let beh : Nat → Attempt := fun x => match broken.find? (·.1 == x) with
+        | some (_, "reset0") => .failBefore true
+        | some _ => .failBefore false
+        | none => .ok ⟨200, [], []⟩
+      let logLen := σ.log.length
+      σ := step active σ (.arrive rid (fun _ => true))
+      let start := σ
+      let pickFor : State → List Ep → Option Ep := fun s vw =>
+        if bal == "priority" then prioritySelectTier (topTier vw) 0
+        else -- the order inside one request is the balancer's business: follow the observed order
+          let done := (s.log.drop logLen).length
+          match contacted[done]? with
+          | some x => vw.find? (fun r => r.id == x)
+          | none => none
+      σ := drive active σ rid pickFor beh 8
+      let mTargets := (σ.log.drop logLen).map (·.target)
+      -- with round-robin / least-connections a request whose model run stops for want of an observed contact is a disagreement
+      let stuck := (σ.inflight.any (fun r => r.rid == rid))
+      if mTargets.length > 1 then failovers := failovers + 1
+      if agree && (mTargets != contacted || stuck) then
+        agree := false
+        if note == "" then note := s!"step {i}: request contacted {contacted}, model dispatches {mTargets} (candidates at arrival {(start.inflight.find? (fun r => r.rid == rid)).map (fun r => r.cands.map (·.id))})"
+      σ := { σ with inflight := σ.inflight.filter (fun r => r.rid != rid) }
+    let after := statusList names (jget obs "after")
+    if agree && after != σ.repo.map (·.status) then
+      agree := false
+      if note == "" then note := s!"step {i} ({kind}): repository statuses {after}, model {σ.repo.map (·.status)}"
+  emit case agree spec (s!"stack.{bal}" ++ (if failovers > 0 then ".failover" else "")) sig note Json.null
+
+-- ---------------------------------------------------------------- race
+
+def handleRace (case : Nat) (j : Json) : IO Unit := do
+  let impl := jget j "impl"
+  if jstr (jget impl "start_err") != "" then
+    emit case false true "start-error" "" (jstr (jget impl "start_err")); return
+  let writes := (jarr (jget impl "writes")).map (fun w => (jstr (jget w "e"), jint (jget w "t0"), jint (jget w "t"), jstr (jget w "s")))
+  let contacts := (jarr (jget impl "contacts")).map (fun c => (jstr (jget c "e"), jint (jget c "start"), jint (jget c "end")))
+  -- statuses endpoint `e` may have held at some instant of [start, end]: every write that may already have been
+  -- applied before `end` and is not certainly overwritten before `start` (writes to one endpoint are sequential)
+  let heldOf := fun (e : String) (start stop : Int) =>
+    let ws := writes.filter (fun w => w.1 == e)
+    ((ws.zip (ws.drop 1 |>.map some) ++ (match ws.getLast? with | some l => [(l, none)] | none => [])).filter (fun (w, nxt) =>
+      w.2.1 ≤ stop && (match nxt with | some n => !(n.2.2.1 ≤ start) | none => true))).map (fun (w, _) => w.2.2.2)
+  let bad := contacts.filter (fun (e, a, b) => !routableSometime (heldOf e a b))
+  let odd := contacts.filter (fun (e, a, b) => !(heldOf e a b).contains "healthy")
+  let spec := bad.isEmpty
+  let agree := odd.isEmpty
+  emit case agree spec "race" (if spec then "" else "traffic-to-endpoint-never-routable-during-request")
+    (if agree && spec then "" else match (bad ++ odd).head? with
+      | some (e, a, b) => s!"{contacts.length} contacts, {writes.length} writes: a request alive during [{a},{b}] ns reached {e}, whose statuses during that interval were {heldOf e a b}"
+      | none => "")
+    (toJson contacts.length)
+
+def handle (j : Json) : IO Unit := do
+  let case := jnat (jget j "case")
+  match jstr (jget j "kind") with
+  | "table" => handleTable case j
+  | "history" => handleHistory case j
+  | "stack" => handleStack case j
+  | "race" => handleRace case j
+  | k => emit case false true "unknown-kind" "" k
+
+def main : IO Unit := do forLines (← IO.getStdin) handle
 
 end Olla.Driver.C03
